@@ -179,6 +179,22 @@ package stack
 //@ spec SimVals(a []Arg, r []Arg, lvl Similarity) bool = len(a) == len(r) && forall i :: 0 <= i && i < len(a) ==> SimArg(&a[i], &r[i], lvl)
 //@ pred SimArgs(a *Args, r *Args, lvl Similarity) = a.Elided == r.Elided && SimVals(a.Values, r.Values, lvl)
 
+// Argument trees are finite: there is a rank function that decreases from an
+// aggregate argument to its fields (true of every value the parser builds,
+// where nesting is below 6, and of any acyclic caller-built value). The
+// inductive lemmas below are proved under this assumption.
+//@ spec height(v []Arg) int
+//@ axiom [argsWellFounded] forall v []Arg, i int :: 0 <= height(v) && (0 <= i && i < len(v) && v[i].IsAggregate ==> height(v[i].Fields.Values) < height(v))
+
+//@ lemma [C05 C12 C04] simRefinesToAnyValue(a []Arg, r []Arg, lvl Similarity)
+//@   requires SimVals(a, r, lvl)
+//@   ensures SimVals(a, r, AnyValue)
+//@   induction height(a)
+//@ lemma [C05 C12 C04] simStackRefinesToAnyValue(s *Stack, r *Stack, lvl Similarity)
+//@   requires SimStack(s, r, lvl)
+//@   ensures SimStack(s, r, AnyValue)
+//@   uses simRefinesToAnyValue
+
 //@ func (*Arg).similar
 //@   requires a != nil && r != nil
 //@   modifies nothing
@@ -206,8 +222,8 @@ package stack
 //@   loop 0: decreases len(a.Values) - rangeindex
 
 //@ pred SimCall(c *Call, r *Call, lvl Similarity) = c.Line == r.Line && c.Func.Complete == r.Func.Complete && c.RemoteSrcPath == r.RemoteSrcPath && SimArgs(&c.Args, &r.Args, lvl)
-//@ pred SimStack(s *Stack, r *Stack, lvl Similarity) = len(s.Calls) == len(r.Calls) && s.Elided == r.Elided && forall i :: 0 <= i && i < len(s.Calls) ==> SimCall(&s.Calls[i], &r.Calls[i], lvl)
-//@ pred SimSig(s *Signature, r *Signature, lvl Similarity) = s.State == r.State && SimStack(&s.CreatedBy, &r.CreatedBy, lvl) && (lvl == ExactFlags ==> s.Locked == r.Locked) && SimStack(&s.Stack, &r.Stack, lvl)
+//@ pred noinline SimStack(s *Stack, r *Stack, lvl Similarity) = len(s.Calls) == len(r.Calls) && s.Elided == r.Elided && forall i :: 0 <= i && i < len(s.Calls) ==> SimCall(&s.Calls[i], &r.Calls[i], lvl)
+//@ pred noinline SimSig(s *Signature, r *Signature, lvl Similarity) = s.State == r.State && SimStack(&s.CreatedBy, &r.CreatedBy, lvl) && (lvl == ExactFlags ==> s.Locked == r.Locked) && SimStack(&s.Stack, &r.Stack, lvl)
 //@ pred EqSig(s *Signature, r *Signature) = SimSig(s, r, ExactFlags) && s.SleepMin == r.SleepMin && s.SleepMax == r.SleepMax
 
 //@ func (*Call).similar
@@ -430,6 +446,7 @@ package stack
 //@   loop 0: decreases len(s.Calls) - rangeindex
 
 //@ func (*Signature).merge
+//@   option uses=simStackRefinesToAnyValue
 //@   requires s != nil && r != nil && SimStack(&s.Stack, &r.Stack, AnyValue)
 //@   modifies nothing
 //@   ensures [sigMergeFresh C14] result != nil && fresh(result)
@@ -438,3 +455,19 @@ package stack
 //@   ensures [sigMergeLocked C12] result.Locked <==> (s.Locked || r.Locked)
 //@   ensures [sigMergeStackShape C12] fresh(result.Stack.Calls) && len(result.Stack.Calls) == len(s.Stack.Calls) && result.Stack.Elided == s.Stack.Elided
 //@   ensures [sigMergeKeepsFrames C12] forall i :: 0 <= i && i < len(s.Stack.Calls) ==> CallKeyKept(&result.Stack.Calls[i], &s.Stack.Calls[i])
+
+// ---- bucket.go: Aggregate (C04, C13, C14) ------------------------------------------
+//@ pred MapOK(s *Snapshot, b auto) = b != nil && fresh(b) && (forall key *Signature :: dom(b, key) ==> key != nil && fresh(key) && live(key) && b[key] != nil && fresh(b[key]) && live(b[key]) && fresh(b[key].ids) && live(b[key].ids) && len(b[key].ids) >= 1 && LocsOK(key.Stack.Calls)) && (forall k1 *Signature, k2 *Signature :: dom(b, k1) && dom(b, k2) && k1 != k2 ==> b[k1] != b[k2] && arr(b[k1].ids) != arr(b[k2].ids))
+//@ pred SnapOK(s *Snapshot) = s != nil && forall i :: 0 <= i && i < len(s.Goroutines) ==> s.Goroutines[i] != nil && LocsOK(s.Goroutines[i].Stack.Calls)
+
+//@ func (*Snapshot).Aggregate
+//@   requires SnapOK(s)
+//@   modifies nothing
+//@   ensures [aggregateRefersBack C04] result != nil && fresh(result) && result.Snapshot == s
+//@   ensures [bucketsWellFormed C04] forall i :: 0 <= i && i < len(result.Buckets) ==> result.Buckets[i] != nil && fresh(result.Buckets[i]) && len(result.Buckets[i].IDs) >= 1 && LocsOK(result.Buckets[i].Stack.Calls)
+//@   ensures [bucketsSorted C13] forall i, j :: 0 <= i && i < j && j < len(result.Buckets) ==> !BucketLt(result.Buckets[j], result.Buckets[i])
+//@   loop 0: invariant -1 <= rangeindex && rangeindex < len(s.Goroutines) && SnapOK(s) && MapOK(s, b)
+//@   loop 0: decreases len(s.Goroutines) - rangeindex
+//@   loop 1: invariant SnapOK(s) && MapOK(s, b) && !found && routine == s.Goroutines[rangeindex] && 0 <= rangeindex && rangeindex < len(s.Goroutines)
+//@   loop 2: invariant SnapOK(s) && MapOK(s, b) && fresh(bs)
+//@   loop 2: invariant forall i :: 0 <= i && i < len(bs) ==> bs[i] != nil && fresh(bs[i]) && len(bs[i].IDs) >= 1 && LocsOK(bs[i].Stack.Calls)
